@@ -2933,6 +2933,11 @@ class SymExec:
         ff = freeze(func)
         if ff == ('ref', 'ext', 'functools.partial') and args:
             return PartialVal(args[0], args[1:], kwargs)
+        if ff == ('ref', 'ext', 'dict.fromkeys') and 1 <= len(args) <= 2 and not kwargs:
+            ks_ = args[0].elts if isinstance(args[0], ListVal) and args[0].concrete() else (
+                list(args[0][1:]) if isinstance(args[0], tuple) and args[0][:1] == ('tuple',) else None)
+            if ks_ is not None and all(is_const(freeze(k_)) for k_ in ks_):
+                return DictVal([(freeze(k_), args[1] if len(args) == 2 else ('const', None)) for k_ in ks_], self.fresh())
         fargs = tuple(freeze(a) for a in args)
         fkw = tuple((k, freeze(v)) for k, v in kwargs)
         if isinstance(ff, tuple) and ff[:2] == ('ref', 'cls') and len(args) == 1 and not kwargs and is_const(fargs[0]):
@@ -3163,6 +3168,13 @@ class SymExec:
                 # a line for the host's diagnostic channel: recorded, but not a call any rule has to reason about
                 self.emit('log', node, func=ff, args=fargs, kwargs=fkw)
                 return ('const', None)
+        if isinstance(ff, tuple) and ff[:1] == ('attr',) and isinstance(ff[1], tuple) and ff[1][:2] == ('ref', 'modvar') and len(ff[1]) == 3 \
+                and ff[2] in ('isEnabledFor', 'getEffectiveLevel'):
+            from .props.common import is_module_logger
+            if is_module_logger(self.facts, ff[1][2]):
+                # `if logger.isEnabledFor(DEBUG):` - the host's setting, either way
+                self.emit('log', node, func=ff, args=fargs, kwargs=fkw)
+                return ('unknown', 'logging-level:%d' % self.fresh())
         resolved = self.resolve_callee(func, fr)
         pure = isinstance(ff, tuple) and ff[:2] == ('ref', 'builtin') and ff[2] in PURE_BUILTINS
         if ff == ('ref', 'builtin', 'isinstance') and len(fargs) == 2 and isinstance(fargs[1], tuple) and fargs[1][:1] == ('tuple',) and len(fargs[1]) == 2:
